@@ -10,6 +10,7 @@ CONSTANTS
   FullLevels = {3}
   MedLevels = {}
   TinyLevels = {}
+  AliasLevels = {}
   XOffs = {}
   XLens = {}
   MaxLen = 9
